@@ -3,7 +3,7 @@ import os
 import vcheck as V
 from props import common
 
-THEOREMS = ["C02_holds", "C02_deliver", "C02_begin_block", "C02_end_block", "C02_commit", "C02_collision_refuted"]
+THEOREMS = ["C02_holds", "C02_deliver_ok", "C02_deliver_fail", "C02_begin_block", "C02_end_block", "C02_collision_refuted"]
 PROPS_V = "theories/Props/C02.v"
 
 
